@@ -276,5 +276,72 @@ theorem setNextStation_ns (r r' : TokenRing) (a : Nat) (h : r.setNextStation a =
         rw [if_neg hx.1, if_pos (between_inPassGap _ _ _ hx)]
       · unfold isActive; rw [dif_neg hx128]
 
+
+/-! ### The ring as a cycle: `nth M j` = the `j mod |M|`-th member -/
+
+def nth (M : List Nat) (j : Nat) : Nat := M.getD (j % M.length) 0
+
+theorem getD_eq (l : List Nat) (i : Nat) (h : i < l.length) : l.getD i 0 = l[i] := by
+  simp [List.getD_eq_getElem?_getD, h]
+
+theorem nth_eq (M : List Nat) (hne : M ≠ []) (j : Nat) :
+    nth M j = M[j % M.length]'(Nat.mod_lt _ (List.length_pos_iff.mpr hne)) :=
+  getD_eq M _ (Nat.mod_lt _ (List.length_pos_iff.mpr hne))
+
+theorem nth_mem (M : List Nat) (hne : M ≠ []) (j : Nat) : nth M j ∈ M := by
+  rw [nth_eq M hne]; exact List.getElem_mem _
+
+theorem mem_nth (M : List Nat) (x : Nat) (hx : x ∈ M) : ∃ i, i < M.length ∧ nth M i = x := by
+  obtain ⟨i, hi, e⟩ := List.mem_iff_getElem.mp hx
+  refine ⟨i, hi, ?_⟩
+  unfold nth
+  rw [Nat.mod_eq_of_lt hi, getD_eq M i hi]; exact e
+
+/-- The cyclic successor of the `j`-th member is the `j+1`-st member. -/
+theorem cycSucc_nth (M : List Nat) (hM : IsRing M) (j : Nat) : cycSucc (nth M j) M = nth M (j + 1) := by
+  have hpos : 0 < M.length := List.length_pos_iff.mpr hM.ne
+  rw [nth_eq M hM.ne, nth_eq M hM.ne, cycSucc_index M hM.asc _ (Nat.mod_lt _ hpos)]
+  congr 1
+  exact Nat.mod_add_mod j M.length 1
+
+theorem rotGo_eq_map (first : Nat) (l : List Nat) :
+    rotGo first l = (List.range l.length).map
+      (fun j => (l.getD j 0, if j + 1 < l.length then l.getD (j + 1) 0 else first)) := by
+  induction l with
+  | nil => rfl
+  | cons x t ih =>
+    cases t with
+    | nil => rfl
+    | cons y t' =>
+      have e : (x :: y :: t').length = (y :: t').length + 1 := rfl
+      rw [rotGo, ih, e, List.range_succ_eq_map, List.map_cons, List.map_map]
+      congr 1
+      apply List.map_congr_left
+      intro j _
+      simp only [Function.comp, Nat.succ_eq_add_one, List.getD_cons_succ]
+      congr 1
+      by_cases c : j + 1 < (y :: t').length
+      · rw [if_pos c, if_pos (by omega)]
+      · rw [if_neg c, if_neg (by omega)]
+
+/-- One full rotation of the ring, as the sequence of passes from each member to the next. -/
+theorem rotation_eq_map (M : List Nat) (hne : M ≠ []) :
+    rotation M = (List.range M.length).map (fun j => (nth M j, nth M (j + 1))) := by
+  cases M with
+  | nil => exact absurd rfl hne
+  | cons s0 t =>
+    show rotGo s0 (s0 :: t) = _
+    rw [rotGo_eq_map]
+    apply List.map_congr_left
+    intro j hj
+    have hj' : j < (s0 :: t).length := by simpa using hj
+    unfold nth
+    rw [Nat.mod_eq_of_lt hj']
+    congr 1
+    by_cases c : j + 1 < (s0 :: t).length
+    · rw [if_pos c, Nat.mod_eq_of_lt c]
+    · have e : j + 1 = (s0 :: t).length := by omega
+      rw [if_neg c, e, Nat.mod_self]; rfl
+
 end TokenRing
 end PV
